@@ -165,6 +165,7 @@ func cliInTheLoop(c *cliEnv, seed int64, budget time.Duration, pairs map[string]
 	defer shim.close()
 	nHist, nTx, nTxCmp, nQ, lockViol := 0, 0, 0, 0, 0
 	queriedSettle := map[int]bool{}
+	arityDone := map[string]bool{}
 	addV := func(rule, key, detail string, cmd []string) {
 		vs = append(vs, cliViolation{rule, key, detail, cmd})
 	}
@@ -203,6 +204,27 @@ func cliInTheLoop(c *cliEnv, seed int64, budget time.Duration, pairs map[string]
 					continue
 				}
 				tx.RawMsgJSON = string(doc.Body.Messages[0])
+				// arity: once per command, the same command line with one positional argument too many and
+				// one too few must be refused (a positional that silently swallows or defaults an argument
+				// sends something other than what was typed)
+				if !arityDone[tx.Msg.Kind] {
+					arityDone[tx.Msg.Kind] = true
+					pos := cliArgs(&tx.Msg)
+					tail := []string{"--from", e0.addrOf(tx.Msg.Who), "--generate-only", "--chain-id", ChainID, "--output", "json"}
+					for _, variant := range [][]string{append(append([]string{}, pos...), pos[len(pos)-1]), pos[:len(pos)-1]} {
+						if len(variant) < 1 {
+							continue
+						}
+						va := append(append([]string{"tx", "fundraising"}, variant...), tail...)
+						rr := c.run(60*time.Second, va...)
+						pairs["arity|"+tx.Msg.Kind+"|"+fmt.Sprint(len(variant)-len(pos))] = true
+						if rr.Panic {
+							addV("cli.arity", tx.Msg.Kind, fmt.Sprintf("`%s` panics", strings.Join(va, " ")), va)
+						} else if rr.Exit == 0 && strings.Contains(rr.Out, "\"messages\"") {
+							addV("cli.arity", tx.Msg.Kind, fmt.Sprintf("`%s` has %d positional argument(s) instead of %d and is accepted: %s", strings.Join(va[:2+len(variant)], " "), len(variant)-1, len(pos)-1, abbreviate(rr.Out)), va)
+						}
+					}
+				}
 				if len(samples) < 3 {
 					samples = append(samples, map[string]interface{}{"typed": strings.Join(args[2:], " "), "sent": json.RawMessage(tx.RawMsgJSON)})
 				}
